@@ -783,9 +783,10 @@ func RunRPCServer(portrpc int, block bool) {
 		spc.Nchan = 1
 	}
 	if err == nil {
-		err0 := sourceControl.ConfigureSimPulseSource(&spc, &okay)
-		if err0 != nil {
-			panic(err0)
+		// A stored configuration that the source rejects must not keep dastard from starting: the RPC call
+		// that set it was answered with an error, but its arguments were announced and saved all the same.
+		if err0 := sourceControl.ConfigureSimPulseSource(&spc, &okay); err0 != nil {
+			log.Printf("Stored simulated-pulse source configuration rejected: %v\n", err0)
 		}
 	}
 	var tsc TriangleSourceConfig
@@ -796,9 +797,8 @@ func RunRPCServer(portrpc int, block bool) {
 		tsc.Nchan = 1
 	}
 	if err == nil {
-		err0 := sourceControl.ConfigureTriangleSource(&tsc, &okay)
-		if err0 != nil {
-			panic(err0)
+		if err0 := sourceControl.ConfigureTriangleSource(&tsc, &okay); err0 != nil {
+			log.Printf("Stored triangle source configuration rejected: %v\n", err0)
 		}
 	}
 	var lsc LanceroSourceConfig
